@@ -131,7 +131,13 @@ func VerifyLaws(L *Loaded, c *FuncContract, opt runOpts) (res *UnitResult) {
 		isBool := tb.IsBox(e.typeKey(bt), e.sortOf(bt), resv[0])
 		return symRes{val: tb.Unbox(e.typeKey(bt), e.sortOf(bt), resv[0]), ok: tb.And(out.reach, noPanic, noErr, isBool), noErr: noErr, res: resv[0], okAny: tb.And(out.reach, noPanic, noErr)}
 	}
-	isNum := func(t types.Type) bool { s := e.sortOf(t); return s == "Int" || s == "Real" }
+	isNum := func(t types.Type) bool {
+		if _, basic := t.Underlying().(*types.Basic); !basic {
+			return false
+		}
+		s := e.sortOf(t)
+		return s == "Int" || s == "Real"
+	}
 	num := func(t types.Type, v *Term) *Term {
 		if v.sort == "Int" {
 			return tb.ToReal(v)
@@ -223,6 +229,40 @@ func VerifyLaws(L *Loaded, c *FuncContract, opt runOpts) (res *UnitResult) {
 					want = tb.Lt(num(t.t1, x), num(t.t2, y))
 				}
 				oblige(name, "("+k+")", tb.And(r.ok, tb.Eq(r.val, want)), "the result compares the numeric values of the operands")
+			}
+		case "numeric-arith":
+			// on Int/Float pairs the entry computes the arithmetic operation; the result is an Int iff both operands are
+			// (division always yields a Float; a zero divisor is outside the law)
+			intT, floatT := typeByName["Int"], typeByName["Float"]
+			for _, k := range keys {
+				t := entries[k]
+				if !isNum(t.t1) || !isNum(t.t2) || intT == nil && floatT == nil {
+					continue
+				}
+				x, y := operand("x", t.t1), operand("y", t.t2)
+				r := apply(t, x, y)
+				bothInt := e.sortOf(t.t1) == "Int" && e.sortOf(t.t2) == "Int"
+				var want, guard *Term
+				guard = tb.True()
+				switch arg {
+				case "+", "-", "*":
+					op := map[string]func(a, b *Term) *Term{"+": tb.Add, "-": tb.Sub, "*": tb.Mul}[arg]
+					if bothInt && intT != nil {
+						want = tb.Box(e.typeKey(intT), e.sortOf(intT), op(x, y))
+					} else if floatT != nil {
+						want = tb.Box(e.typeKey(floatT), e.sortOf(floatT), op(num(t.t1, x), num(t.t2, y)))
+					}
+				case "/":
+					if floatT != nil {
+						want = tb.Box(e.typeKey(floatT), e.sortOf(floatT), tb.RealDiv(num(t.t1, x), num(t.t2, y)))
+						guard = tb.Not(tb.Eq(num(t.t2, y), tb.ToReal(tb.Int(0))))
+					}
+				}
+				if want == nil {
+					oblige("numeric-arith", "("+k+")", tb.False(), "unsupported operator "+arg)
+					continue
+				}
+				oblige("numeric-arith", "("+k+")", tb.Imp(guard, tb.And(r.okAny, tb.Eq(r.res, want))), "the entry computes x "+arg+" y; Int only if both operands are Int")
 			}
 		case "total-on":
 			var ts []string
